@@ -693,6 +693,12 @@ func isLoopControlFact(fc Fact) bool {
 // and slice ranges) is left only through its header, i.e. the body contains no
 // `break` (returns are fine): every element is visited.
 func (c *Ctx) NoEarlyExit(fn *ssa.Function, over VM, label string) int {
+	return c.NoEarlyExitExcept(fn, over, label, nil)
+}
+
+// NoEarlyExitExcept is NoEarlyExit with the early exits for which allowed
+// returns true (judged on the block that leaves the loop) left out.
+func (c *Ctx) NoEarlyExitExcept(fn *ssa.Function, over VM, label string, allowed func(*ssa.BasicBlock) bool) int {
 	n := 0
 	for _, b := range fn.Blocks {
 		var header *ssa.BasicBlock
@@ -721,6 +727,9 @@ func (c *Ctx) NoEarlyExit(fn *ssa.Function, over VM, label string) int {
 		body := header.Succs[0]
 		for _, p := range done.Preds {
 			if p != header && (p == body || body.Dominates(p)) {
+				if allowed != nil && allowed(p) {
+					continue
+				}
 				c.violate(p.Instrs[len(p.Instrs)-1], fn, label, label+": the loop is left early (break) before every element was visited", nil)
 			}
 		}
@@ -945,4 +954,38 @@ func (c *Ctx) EnteredOnlyWhenAll(blk *ssa.BasicBlock, label string, skip func(*s
 		}
 	}
 	return ok
+}
+
+// UnderArm: site lies inside an arm that is entered only under one of the
+// facts `when`: some block dominating the site (or its own block) is entered
+// only along edges on which one of them holds. Unlike MustFact this also
+// recognises the then-arm of `a || b`, whose two entry edges carry different
+// facts.
+func (c *Ctx) UnderArm(site ssa.Instruction, label string, when ...FM) bool {
+	c.inst(label + " <- " + c.siteStr(site))
+	c.nontrivial(label + c.siteStr(site))
+	for d := site.Block(); d != nil; d = d.Idom() {
+		if len(d.Preds) == 0 {
+			break
+		}
+		all := true
+		for _, p := range d.Preds {
+			for _, fs := range incomingFacts(p, d) {
+				hit := false
+				for _, fm := range when {
+					if _, h := hasFact(fs, fm); h {
+						hit = true
+					}
+				}
+				if !hit {
+					all = false
+				}
+			}
+		}
+		if all {
+			return true
+		}
+	}
+	c.violate(site, site.Parent(), label, "guard \""+label+"\" does not hold on every way into an arm enclosing "+instrStr(site), nil)
+	return false
 }
